@@ -66,6 +66,33 @@ pub fn gen_cov_case(rng: &mut Rng, tier: &str, prop: &str) -> Case {
             CountCfg::gb_for_limit(rng.range(lo, (total as u64).max(lo)))
         }
     };
+    // bin size: small, medium (up to 200: not every size has an exact f64
+    // reciprocal), or -- one case in four -- a multiplicity that really occurs
+    // (or a divisor of one), so that counts land exactly on a bin edge
+    let bin_size = {
+        let count_records: &[Rec] = extra.first().map(|e| &e.records[..]).unwrap_or(&records[..]);
+        let mult: Vec<u64> = if rng.chance(1, 4) {
+            model::count_kmers(count_records.iter().map(|r| r.seq.as_bytes()), k)
+                .values()
+                .copied()
+                .filter(|&c| c >= 2)
+                .collect()
+        } else {
+            Vec::new()
+        };
+        if !mult.is_empty() {
+            let c = *rng.pick(&mult) as usize;
+            let divisors: Vec<usize> = (1..=c.min(400)).filter(|d| c % d == 0).collect();
+            (*rng.pick(&divisors)).max(1)
+        } else {
+            match rng.weighted(&[25, 35, 25, 15]) {
+                0 => 1,
+                1 => rng.usize(2, 6),
+                2 => rng.usize(7, 40),
+                _ => rng.usize(41, 200),
+            }
+        }
+    };
     let sched = Sched::draw(rng, 3 * total as u64 + 10 * records.len() as u64 + 16);
     Case {
         prop: prop.into(),
@@ -83,7 +110,7 @@ pub fn gen_cov_case(rng: &mut Rng, tier: &str, prop: &str) -> Case {
             "gb" => gb,
             "norm" => !rng.chance(1, 2),
             "delim" => *rng.pick(&[",", "\t", " "]),
-            "bin_size" => match rng.weighted(&[30, 40, 30]) { 0 => 1, 1 => rng.usize(2, 6), _ => rng.usize(7, 40) },
+            "bin_size" => bin_size,
             "bin_count" => match rng.weighted(&[20, 50, 30]) { 0 => 1, 1 => rng.usize(2, 6), _ => rng.usize(7, 24) },
             "order" => if rng.chance(1, 2) { 0 } else { rng.range(1, 1 << 40) },
         },
